@@ -61,3 +61,13 @@ func SpecCtx(c iclient.CodegenClient) *codegen.CodeGenContext {
 //@ props C13
 //@ option inline
 //@ ensures[safe] true
+
+// SetOcodes hands the list over as it is: every ocode keeps its kind, operands and recorded mode
+// (C17: the mode travels with the ocode from pass 1 through pass 2 to code generation).
+
+//@ func (*ocodeClient).SetOcodes
+//@ props C17 C14
+//@ requires c != nil
+//@ ensures[keep@C17+C14] len(c.Ocodes) == len(ocodes) && forall(0, len(ocodes), func(k int) bool { return c.Ocodes[k].BitMode == ocodes[k].BitMode && c.Ocodes[k].Kind == ocodes[k].Kind && vcSame(c.Ocodes[k].Operands, ocodes[k].Operands) })
+//@ assigns ocodeClient.Ocodes
+
